@@ -487,6 +487,50 @@ class TrEdit:
         return self.block(list(node.body), '.error .reject', 1)
 
 
+def pure_expr(node):
+    """an expression whose evaluation has no effect and cannot raise for the objects of this code base:
+    constants, names, attribute chains, `not`/`and`/`or`/comparisons of such, isinstance()/type(); an f-string
+    whose fields are such expressions.  Everything the action translator IGNORES (arguments of logging calls,
+    conditions of statements that only log) must be of this form: an eager `"…%s" % value`, a subscript, an
+    arbitrary call inside an ignored construct could change the behaviour unnoticed."""
+    if isinstance(node, ast.Constant):
+        return True
+    if isinstance(node, ast.Name):
+        return True
+    if isinstance(node, ast.Attribute):
+        return pure_expr(node.value)
+    if isinstance(node, ast.UnaryOp) and isinstance(node.op, ast.Not):
+        return pure_expr(node.operand)
+    if isinstance(node, ast.BoolOp):
+        return all(pure_expr(v) for v in node.values)
+    if isinstance(node, ast.Compare):
+        return pure_expr(node.left) and all(pure_expr(c) for c in node.comparators)
+    if isinstance(node, ast.IfExp):
+        return pure_expr(node.test) and pure_expr(node.body) and pure_expr(node.orelse)
+    if isinstance(node, ast.Call) and isinstance(node.func, ast.Name) and node.func.id in ('isinstance', 'type') \
+            and not node.keywords:
+        return all(pure_expr(a) for a in node.args)
+    if isinstance(node, ast.JoinedStr):
+        return all(isinstance(v, ast.Constant) or (isinstance(v, ast.FormattedValue) and pure_expr(v.value)
+                                                   and v.format_spec is None) for v in node.values)
+    if isinstance(node, ast.Tuple):
+        return all(pure_expr(e) for e in node.elts)
+    return False
+
+
+def is_logging_call(call):
+    """self.log_…(…) / _logger.…(…) with lazily formatted, pure arguments"""
+    try:
+        p = node_path(call.func)
+    except Untranslatable:
+        return False
+    if not (p.startswith('self.log_') or p.startswith('_logger.') or p.startswith('source.log_')):
+        return False
+    if not all(pure_expr(a) for a in call.args) or not all(pure_expr(k.value) for k in call.keywords):
+        raise Untranslatable('a logging call with an argument that is evaluated eagerly: ' + ast.unparse(call)[:100])
+    return True
+
+
 class TrAct(Tr):
     """
     Third translation scheme: the ORDER OF ACTIONS of `SBlock.set_output` / `CBlock.eval_block`.
@@ -516,9 +560,7 @@ class TrAct(Tr):
                 return self.acts(rest, env, ind)
             if isinstance(s.value, ast.Call):
                 p = self.path(s.value.func)
-                if p == 'self.log_debug':
-                    return self.acts(rest, env, ind)
-                if p.startswith('self.log_') or p.startswith('_logger.'):
+                if is_logging_call(s.value):
                     return self.acts(rest, env, ind)
                 if (p == 'self.circuit.sblock_queue.put_nowait' and len(s.value.args) == 1
                         and self.path(s.value.args[0]) == 'self' and not s.value.keywords):
@@ -555,8 +597,7 @@ class TrAct(Tr):
                     return f'{pad}match {param} with\n' + '\n'.join(arms)
             # try: <statements>  except Exception as err: <only logging>   (errors are suppressed)
             if (len(s.handlers) == 1 and getattr(s.handlers[0].type, 'id', None) == 'Exception'
-                    and all(isinstance(h, ast.Expr) and isinstance(h.value, ast.Call)
-                            and self.path(h.value.func).startswith('self.log_') for h in s.handlers[0].body)):
+                    and self.only_logging(s.handlers[0].body)):
                 return self.acts(list(s.body) + rest, env, ind)
             raise Untranslatable('try ' + ast.dump(s)[:160])
         if isinstance(s, ast.Raise):
@@ -591,7 +632,9 @@ class TrAct(Tr):
                 return f'{pad}Prim.store {t} ::\n' + self.acts(rest, env, ind)
             raise Untranslatable('assignment ' + ast.dump(s)[:120])
         if isinstance(s, ast.If) and self.only_logging(s.body) and self.only_logging(s.orelse):
-            return self.acts(rest, env, ind)        # whatever the condition: nothing but log messages
+            if not pure_expr(s.test):
+                raise Untranslatable('condition of a logging-only statement: ' + ast.unparse(s.test)[:100])
+            return self.acts(rest, env, ind)        # whatever the (pure) condition: nothing but log messages
         if (isinstance(s, ast.If) and isinstance(s.test, ast.BoolOp) and isinstance(s.test.op, ast.And)
                 and self.narrow_stmt(s.test.values[0], env) is not None):
             # `if X is not None and B: body else: orelse`  ==  `if X is not None: (if B: body else: orelse) else: orelse`
@@ -628,8 +671,7 @@ class TrAct(Tr):
         raise Untranslatable('statement ' + ast.dump(s)[:120])
 
     def only_logging(self, stmts):
-        return all(isinstance(h, ast.Expr) and isinstance(h.value, ast.Call)
-                   and (self.path(h.value.func).startswith('self.log_') or self.path(h.value.func).startswith('_logger.'))
+        return all(isinstance(h, ast.Expr) and isinstance(h.value, ast.Call) and is_logging_call(h.value)
                    for h in stmts)
 
     def narrow_stmt(self, test, env):
